@@ -221,6 +221,11 @@ def gen_case(rng, cid, nops, kind=None, slots=None, binsearch=None, mode=None, p
                 lines.append(" ".join([f"{op} {r}"] + [fmt_ent(is_map, k, v) for k, v in es]))
             else:
                 lines.append(f"cmp {r} {o}")
+        elif x < maintenance + w_ins and R.es and rng.random() < 0.15:
+            # the argument is a reference to an element stored in the container itself
+            rank = rng.randrange(len(R.es))
+            lines.append(f"{rng.choice(['insref', 'insref', 'inshref'])} {r} {rank}")
+            R.insert(*R.es[rank])
         elif x < maintenance + w_ins:
             k, v = key(), val()
             op = rng.choice(["ins", "ins", "ins", "insh"] + (["ins2"] if is_map else []) + (["idx"] if kind == "map" else []))
@@ -234,7 +239,16 @@ def gen_case(rng, cid, nops, kind=None, slots=None, binsearch=None, mode=None, p
             y = rng.random()
             if phase == "shrink-iter":
                 y = y * 0.6 + 0.4
-            if y < 0.45 or not R.es:
+            if R.es and rng.random() < 0.12:
+                rank = rng.randrange(len(R.es))
+                k = R.es[rank][0]
+                if rng.random() < 0.5:
+                    lines.append(f"er1ref {r} {rank}")
+                    R.erase_one(k)
+                else:
+                    lines.append(f"eraref {r} {rank}")
+                    R.erase_all(k)
+            elif y < 0.45 or not R.es:
                 k = present_key(R)
                 lines.append(f"er1 {r} {k}")
                 R.erase_one(k)
@@ -258,7 +272,9 @@ def gen_case(rng, cid, nops, kind=None, slots=None, binsearch=None, mode=None, p
         else:
             q = rng.choice(["find", "find", "lb", "lb", "ub", "ub", "eqr", "count", "count", "exists", "size",
                             "iter", "iter", "rconv", "fconv", "cmp"])
-            if q == "size":
+            if R.es and rng.random() < 0.1:
+                lines.append(f"{rng.choice(['findref', 'lbref', 'ubref', 'countref'])} {r} {rng.randrange(len(R.es))}")
+            elif q == "size":
                 lines.append(f"size {r}")
             elif q == "iter":
                 lines.append(f"iter {r} {rng.randrange(16)}")
@@ -309,6 +325,50 @@ def directed_cases():
                     lines += [f"eri 0 {rank}", "lb 0 5", "ub 0 4", f"rconv 0 {min(rank, cnt - i - 1)}"]
                 lines += ["eri 0 0", "size 0", "cmp 0 1", "swap 0 1", "era 0 4", "era 0 5", "bulk 0 " + " ".join(
                     fmt_ent(is_map, k, v) for k, v in [(k, k + 1) for k in (sorted(range(leaf * (inner + 1)), reverse=(mode == 1)))])]
+                cs.append(lines)
+                n += 1
+    return cs
+
+
+def byref_cases():
+    """arguments that alias elements of the container: every rank of trees whose leaves are full, half full and
+    in between, for insert (a full leaf is split before the aliased argument is stored), insert with hint, both
+    erases and the queries; duplicate-key kinds insert a duplicate, unique-key kinds must stay unchanged"""
+    cs = []
+    n = 0
+    for (leaf, inner) in ((4, 4), (5, 4), (4, 7), (8, 8)):
+        for kind in KINDS:
+            is_map, dup = kind in ("map", "mmap"), kind in ("mset", "mmap")
+            for mode in (0, 1):
+                cnt = leaf * 3 + (n % 3)
+                keys = sorted(range(10, 10 + 2 * cnt, 2), reverse=(mode == 1))
+                lines = [f"case byref-{kind}-{leaf}-{inner}-{mode}", f"cfg {kind} {leaf} {inner} {n % 2} {mode}",
+                         "bulk 0 " + " ".join(fmt_ent(is_map, k, k % 7) for k in keys)]
+                size = cnt
+                # every element once as the aliased argument (ranks move as duplicates are inserted)
+                rank = 0
+                while rank < size and size < 6 * cnt:
+                    lines.append(f"{'insref' if rank % 3 else 'inshref'} 0 {rank}")
+                    if dup:
+                        size += 1
+                        rank += 2
+                    else:
+                        rank += 1
+                lines += ["iter 0 0", "size 0"]
+                for rank in range(0, size, 3):
+                    lines += [f"findref 0 {rank}", f"lbref 0 {rank}", f"ubref 0 {rank}", f"countref 0 {rank}"]
+                lines.append("copy 1 0")
+                # erase through references: first the duplicates, then from both ends
+                for i in range(size):
+                    if i % 4 == 0:
+                        lines.append("eraref 0 0")
+                    elif i % 4 == 1:
+                        lines.append(f"er1ref 0 {(i * 5) % 3}")
+                    elif i % 4 == 2:
+                        lines.append("eraref 1 1")
+                    else:
+                        lines.append("er1ref 1 0")
+                lines += ["iter 0 0", "iter 1 0", "size 0", "size 1"]
                 cs.append(lines)
                 n += 1
     return cs
@@ -477,6 +537,7 @@ class BTreeSpec(flow.Spec):
             cs += self.deep_cases(ctx, seed, tier)
             cs += bulk_size_cases(tier, seed)
             cs += allocator_cases()
+            cs += byref_cases()
         n = 260 if tier == "quick" else 8000
         k = 0
         # every kind x slot pair x search x order at least once per run, then random configurations
